@@ -358,7 +358,7 @@ static void run_free(void)
     for (int k = 0; k < 3; k++) {
         pthread_join(th[k], NULL);
         if (tprobe[k].n < 0) {
-            FAIL("threads:free-running:values-differ", "thread %d saw values different from its solo run while other threads drew concurrently", k);
+            vx_violation("free:c15:threads:values-differ", "thread %d saw values different from its solo run while other threads drew concurrently", k);
         }
     }
     vx_transitions(600);
